@@ -43,11 +43,14 @@ def __call__(self, T, P=None):
 
 VolumeSolid.__call__ = __call__
 
-# Shallow copy
+# Shallow copy, except for the containers that `add_method` updates in place
 def copy(self):
     cls = type(self)
     copy = cls.__new__(cls)
-    copy.__dict__.update(self.__dict__)
+    dct = copy.__dict__
+    dct.update(self.__dict__)
+    for name in ('local_methods', 'all_methods', 'T_limits'):
+        if name in dct: dct[name] = dct[name].copy()
     return copy
 
 TDependentProperty.copy = copy
